@@ -62,7 +62,7 @@ SPEC = {
     "theorems": [
         "C14_derived_var", "C14_derived_var_code", "C14_derived_var_needs_last_flag", "C14_facts_subscriptions", "C14_facts_onupdate_guard", "C14_derived_var_steady", "C14_inherit", "C14_derived_var_unsubscribe", "C14_derived_var_frozen",
         "C14_derived_set", "C14_derived_set_counts", "C14_subtract", "C14_counter",
-        "C14_derived_set_concurrent", "C14_subtract_concurrent", "C14_skeleton_readableSet_SubtractReactive", "C14_counter_concurrent", "C14_sorted_set_concurrent",
+        "C14_derived_set_concurrent", "C14_subtract_concurrent", "C14_skeleton_readableSet_SubtractReactive", "C14_counter_concurrent", "C14_counter_concurrent_code", "C14_counter_needs_flag_witness", "C14_sorted_set_concurrent",
         "C14_sorted_set", "C14_sorted_set_spec", "C14_sorted_set_members", "C14_sorted_set_absent_weight",
         "C14_eviction", "C14_eviction_unique", "C14_eviction_pre", "C14_eviction_concurrent", "C14_eviction_concurrent_safety", "C14_skeleton_ShrinkingMap_GetOrCreate",
         "C14_compose_quiescent", "C14_compose_derived_set", "C14_compose_subtract", "C14_compose_unique", "C14_compose_unique_general", "C14_compose_shapes_acyclic", "C14_compose_settle_is_run", "C14_derived_var_replay_is_run", "C14_compose_late_publication_witness",
